@@ -13,11 +13,10 @@
       - a point written at the last writable instant MaxNanoTime is returned by no read
         ([C21_filter_points_exact_refuted]);
       - tag values containing a NUL byte make the group sort key ambiguous
-        ([C21_group_key_order_refuted]);
-      - the value filter of the shared multi-shard cursor survives from one series to the
-        next: a series WITHOUT a field-value condition that follows (same field type) a series
-        WITH one is filtered by the other series' condition in its 2nd..nth shard
-        ([C21_filter_value_condition_refuted]).
+        ([C21_group_key_order_refuted]).
+    A third corner (the value filter of the shared multi-shard cursor surviving from one series
+    to the next) was found with this check and repaired upstream (fix e5cbc6eccf); the model
+    follows the repaired code and [C21_filter_value_conditions_exact] is now unconditional.
     The [_partial] theorems are the full statement outside these corners. *)
 From Coq Require Import String Ascii Sorting.Sorted Permutation.
 From Verif Require Import Base.Prelude Model.C21 Proofs.C21_order Proofs.C21_filter Proofs.C21_group
@@ -50,27 +49,25 @@ Print Assumptions C21_two_stage_predicate.
 (** Points of one row, for every data set whose shards have pairwise disjoint non-empty time
     ranges and hold their points inside their range in strictly increasing time order (what
     C18 and the engine properties provide), for every request window, series field, value
-    condition [cond] of the row and state [st] of the shared cursors — PROVIDED [cursor_ok]: the
-    row has a value condition of its own, or no earlier row of the same field type armed the
-    filter, or at most one shard is selected.  Then the multi-shard cursor over the selected
-    shards, in [findShardIDs] order, yields the points in strictly increasing time order (no
-    duplicate), and a point below MaxNanoTime is yielded iff it is stored in SOME shard of the
-    data set, start <= t < end and its value passes the row's own condition (none dropped, none
-    invented; shards that are not selected hold no point of the window). *)
+    condition [cond] of the row and ANY state [st] the earlier rows left in the shared cursors:
+    the multi-shard cursor over the selected shards, in [findShardIDs] order, yields the points
+    in strictly increasing time order (no duplicate), and a point below MaxNanoTime is yielded
+    iff it is stored in SOME shard of the data set, start <= t < end and its value passes the
+    row's own condition (none dropped, none invented; shards that are not selected hold no point
+    of the window). *)
 Theorem C21_filter_points_exact_partial : forall shs start end_ s f st ty cond,
   wf_dataset shs ->
   let lo := clamp_start start in
   let e := clamp_end end_ in
   let sel := select_shards shs lo e in
-  cursor_ok st ty cond sel ->
   let pts := fst (multi_cursor_v st ty cond sel lo (e - 1) s f) in
   StronglySorted pt_lt pts /\
   forall t v, (t < MaxNanoTime)%Z ->
     (In (t, v) pts <->
      stored_point shs s f t v /\ (start <= t < end_)%Z /\ vpass cond v = true).
 Proof.
-  intros shs start end_ s f st ty cond W lo e sel OK pts. subst pts.
-  rewrite (multi_cursor_v_ok _ _ _ _ _ _ _ _ OK). split.
+  intros shs start end_ s f st ty cond W lo e sel pts. subst pts.
+  rewrite multi_cursor_v_ok. split.
   - apply vfilter_sorted, multi_cursor_sorted; [|apply select_ordered, W].
     intros sh H. apply select_in in H as [H _]. apply (wf_shards _ W), H.
   - intros t v Ht. rewrite in_vfilter. unfold sel, lo, e.
@@ -85,76 +82,35 @@ Theorem C21_value_condition_is_predicate : forall p s f v,
 Proof. exact value_cond_spec. Qed.
 Print Assumptions C21_value_condition_is_predicate.
 
-(** ... and a whole filter read is exact (every row = its own points filtered by its own
-    condition) when all rows of the request carry a value condition, or none does, or at most
-    one shard is selected. *)
-Theorem C21_filter_value_conditions_partial : forall ty shs start end_ p,
+(** ... and a whole filter read is exact for EVERY data set, window, predicate and field
+    typing: every row = the row's own points (all selected shards, in order) filtered by the
+    row's own condition, whatever mixture of rows with and without value conditions the request
+    has and however many shards it spans (full statement for value conditions; it was refuted
+    by the model before fix e5cbc6eccf). *)
+Theorem C21_filter_value_conditions_exact : forall ty shs start end_ p,
   let lo := clamp_start start in
   let e := clamp_end end_ in
   let sel := select_shards shs lo e in
-  let rows := srows sel p in
-  Forall (fun r => r_cond r <> None) rows \/ Forall (fun r => r_cond r = None) rows \/
-  length sel <= 1 ->
-  read_filter ty shs start end_ p = map (exact_row sel lo (e - 1)) rows.
-Proof.
-  intros ty shs start end_ p lo e sel rows H. unfold read_filter. apply read_rows_uniform.
-  destruct H as [H|[H|H]]; auto.
-Qed.
-Print Assumptions C21_filter_value_conditions_partial.
+  read_filter ty shs start end_ p = map (exact_row sel lo (e - 1)) (srows sel p).
+Proof. intros. unfold read_filter. apply read_rows_exact. Qed.
+Print Assumptions C21_filter_value_conditions_exact.
 
-(** Without [cursor_ok] the statement is FALSE: two shards, one series with integer fields a
-    and b, predicate (_field = "a" AND value > 5) OR _field = "b".  Row a arms the integer
-    cursor's filter with "value > 5"; row b has no condition, so [reset] leaves the filter in
-    place and [nextArrayCursor] applies it to b's second shard: the stored point (11, 2) of b,
-    inside the window and satisfying the predicate, is dropped. *)
+(** The shape that used to fail: two shards, one series with integer fields a and b, predicate
+    (_field = "a" AND value > 5) OR _field = "b".  Row a arms the integer cursor's filter with
+    "value > 5"; row b has no condition and now gets all four of its points (before the fix
+    (11, 2), in b's second shard, was dropped by a's stale filter). *)
 Definition stale_s := mkS "cpu"%string [].
 Definition stale_shs := [
   mkSh 0 10 [mkSD stale_s [("a"%string, [(1, 1); (6, 10)]%Z); ("b"%string, [(1, 1); (6, 10)]%Z)]];
   mkSh 10 20 [mkSD stale_s [("a"%string, [(11, 2); (16, 20)]%Z); ("b"%string, [(11, 2); (16, 20)]%Z)]]].
 Definition stale_pred :=
   POr (PAnd (PCmp false "_field" "a") (PVal VGt 5)) (PCmp false "_field" "b").
-Theorem C21_filter_value_condition_refuted :
-  wf_dataset stale_shs /\
-  stored_point stale_shs stale_s "b" 11 2 /\ (0 <= 11 < 20)%Z /\
-  opt_eval_v (Some stale_pred) stale_s "b" 2 = true /\
+Example C21_value_condition_mixed_rows :
   read_filter [] stale_shs 0 20 (Some stale_pred) =
     [([("_field", "a"); ("_measurement", "cpu")]%string, [(6, 10); (16, 20)]%Z);
-     ([("_field", "b"); ("_measurement", "cpu")]%string, [(1, 1); (6, 10); (16, 20)]%Z)].
-Proof.
-  assert (SP : forall lo hi pa pb s' f',
-             let sh := mkSh lo hi [mkSD stale_s [("a"%string, pa); ("b"%string, pb)]] in
-             shard_points sh s' f' = [] \/ shard_points sh s' f' = pa \/
-             shard_points sh s' f' = pb).
-  { intros lo hi pa pb s' f' sh. unfold shard_points, sh.
-    cbn [sh_data flat_map sd_series sd_fields].
-    destruct (series_eqb stale_s s'); [|left; reflexivity]. cbn [fst snd].
-    destruct (String.eqb_spec "a" f') as [<-|Na].
-    - right; left. cbn. rewrite !app_nil_r. reflexivity.
-    - destruct (String.eqb "b" f'); [right; right|left]; cbn; rewrite ?app_nil_r; reflexivity. }
-  assert (WF : forall lo hi pa pb,
-             (lo < hi)%Z ->
-             (forall t v, In (t, v) (pa ++ pb) -> (lo <= t < hi)%Z /\ (MinNanoTime <= t <= MaxNanoTime)%Z) ->
-             StronglySorted pt_lt pa -> StronglySorted pt_lt pb ->
-             wf_shard (mkSh lo hi [mkSD stale_s [("a"%string, pa); ("b"%string, pb)]])).
-  { intros lo hi pa pb L R Sa Sb. constructor; [exact L| |].
-    - intros s' f' t v H. apply R, in_or_app.
-      destruct (SP lo hi pa pb s' f') as [E|[E|E]]; rewrite E in H; [destruct H|left|right]; auto.
-    - intros s' f'. destruct (SP lo hi pa pb s' f') as [E|[E|E]]; rewrite E; auto. constructor. }
-  split; [|split; [|split; [|split]]].
-  - constructor.
-    + intros sh [<-|[<-|[]]]; apply WF; try lia;
-        try (repeat constructor; unfold pt_lt; cbn; lia);
-        intros t v H; cbn in H;
-        repeat (destruct H as [H|H]; [inversion H; subst; unfold MinNanoTime, MaxNanoTime; lia|]);
-        destruct H.
-    + repeat constructor; cbn; [intros [H|[]]; discriminate | tauto].
-    + intros a b [<-|[<-|[]]] [<-|[<-|[]]] H; try congruence; unfold disjoint; cbn; lia.
-  - exists (nth 1 stale_shs (mkSh 0 0 [])). split; [right; left; reflexivity|]. vm_compute. auto.
-  - lia.
-  - reflexivity.
-  - vm_compute. reflexivity.
-Qed.
-Print Assumptions C21_filter_value_condition_refuted.
+     ([("_field", "b"); ("_measurement", "cpu")]%string, [(1, 1); (6, 10); (11, 2); (16, 20)]%Z)]
+  /\ spec_filter stale_shs 0 20 (Some stale_pred) = read_filter [] stale_shs 0 20 (Some stale_pred).
+Proof. split; vm_compute; reflexivity. Qed.
 
 (** ... and the restriction t < MaxNanoTime cannot be removed: [validateArgs] clamps the end of
     the window to MaxNanoTime and the window is end-exclusive, so a point stored at
